@@ -173,6 +173,26 @@ theorem parse_formula_xlsb_correct (ctx : Ctx) (e : Expr) (harity : e.arityOk)
     parseFormulaXlsb ctx (encodeXlsb (toRpn e)) = .ok (renderA1 (envOfXlsb ctx) e) :=
   parseFormulaXlsb_encode ctx e harity hwf
 
+/-- the statements above cover streams with the inert PtgAttr tokens a real writer emits around functions
+    (`Expr.inert`: PtgAttrIf / PtgAttrGoto / PtgAttrSemi …, and PtgAttrChoose with any `cOffset`): here
+    `CHOOSE(1,2,3)` exactly as Excel tokenises it — selector, PtgAttrChoose(cOffset = 2, 3 offsets), each
+    alternative followed by PtgAttrGoto, PtgFuncVar(3, CHOOSE) — satisfies their hypotheses in both encodings
+    (the xlsb decoder mis-skipped PtgAttrChoose unless `cOffset = 3` before fix 792e6c9) -/
+example :
+    let e : Expr := .funcVar 0 100 [.inert (.attrChoose [6, 10, 14]) (.int 1), .inert (.attrSkip 8 3) (.int 2),
+      .inert (.attrSkip 8 0) (.int 3)]
+    e.arityOk ∧ (∀ t ∈ toRpn e, t.wf true) ∧ (∀ t ∈ toRpn e, t.wf false ∧ t.sheetOk 0) ∧
+    renderA1 ⟨fun _ => [], fun _ => [], fun _ => []⟩ e = "CHOOSE(1,2,3)".toList := by
+  intro e
+  have hl : Gen.ftabLen = 485 := by decide +kernel
+  refine ⟨by simp [e, Expr.arityOk, argsOk, Tok.isInert, hl], ?_, ?_, by decide +kernel⟩
+  · intro t ht
+    simp [e, toRpn, toRpnArgs] at ht
+    rcases ht with rfl | rfl | rfl | rfl | rfl | rfl | rfl <;> simp [Tok.wf, hl]
+  · intro t ht
+    simp [e, toRpn, toRpnArgs] at ht
+    rcases ht with rfl | rfl | rfl | rfl | rfl | rfl | rfl <;> simp [Tok.wf, Tok.sheetOk, hl]
+
 /-- the loop budget used by `parseFormulaXls` (one unit per token, `rgce.length` units) is never exhausted
     on encoded expressions: the run of a token list needs exactly `toks.length` units -/
 theorem fuel_suffices_xls (ctx : Ctx) (toks : List Tok) (hwf : ∀ t ∈ toks, t.wf true) (st : St) :
@@ -329,6 +349,14 @@ theorem parseFormulaXlsb_no_panic (ctx : Ctx) (rgce : Bytes) (m : String) : pars
 
 theorem parseFormulaXlsb_fuel (ctx : Ctx) (rgce : Bytes) : parseFormulaXlsb ctx rgce ≠ .outOfFuel :=
   (parseFormulaXlsb_total ctx rgce).2
+
+/-- **bounded recursion** (C06 re-exports this): PtgMemFunc sub-expressions are parsed by a recursive call on the
+    Rust call stack; `depthUsed` follows the same control flow as the decoder and returns the deepest `depth`
+    argument of any call made.  From the top-level call it never exceeds `maxMemDepth` = 64, whatever the bytes:
+    at most 65 frames of `parse_formula_nested` are ever on the stack (deeper nesting is an `Err`) -/
+theorem parseFormulaXlsb_depth_bounded (ctx : Ctx) (rgce : Bytes) :
+    depthUsed ctx 0 rgce.length rgce ⟨[], []⟩ ≤ maxMemDepth ∧ maxMemDepth = 64 :=
+  ⟨depthUsed_top ctx rgce, rfl⟩
 
 /-- `parse_defined_names` (xls Lbl formulas) is total too -/
 theorem definedNameXls_no_panic (rgce : Bytes) (m : String) : definedNameXls rgce ≠ .panic m :=
